@@ -1,1 +1,407 @@
+//! KI5d — symbol decoding on the fixed tables, one step per start mode, through both copies of the code
+//! (`len_and_friends` and the duplicate arms in `dispatch`): C02, C03, C04.
 use super::*;
+
+const LBASE: [u16; 29] = [3, 4, 5, 6, 7, 8, 9, 10, 11, 13, 15, 17, 19, 23, 27, 31, 35, 43, 51, 59, 67, 83, 99, 115, 131, 163, 195, 227, 258];
+const LEXT: [u8; 29] = [0, 0, 0, 0, 0, 0, 0, 0, 1, 1, 1, 1, 2, 2, 2, 2, 3, 3, 3, 3, 4, 4, 4, 4, 5, 5, 5, 5, 0];
+const DBASE: [u16; 30] = [1, 2, 3, 4, 5, 7, 9, 13, 17, 25, 33, 49, 65, 97, 129, 193, 257, 385, 513, 769, 1025, 1537, 2049, 3073, 4097, 6145, 8193, 12289, 16385, 24577];
+const DEXT: [u8; 30] = [0, 0, 0, 0, 1, 1, 2, 2, 3, 3, 4, 4, 5, 5, 6, 6, 7, 7, 8, 8, 9, 9, 10, 10, 11, 11, 12, 12, 13, 13];
+
+fn rev(v: u64, n: u32) -> u32 {
+    ((v as u32).reverse_bits()) >> (32 - n)
+}
+
+/// RFC 1951 3.2.6 fixed literal/length code read LSB-first from `v` (zero padded): (symbol, code length)
+fn ref_fixed_lit(v: u64) -> (u16, u8) {
+    let c7 = rev(v & 0x7f, 7);
+    if c7 <= 0x17 {
+        return (256 + c7 as u16, 7);
+    }
+    let c8 = rev(v & 0xff, 8);
+    if c8 >= 0x30 && c8 <= 0xbf {
+        return ((c8 - 0x30) as u16, 8);
+    }
+    if c8 >= 0xc0 && c8 <= 0xc7 {
+        return (280 + (c8 - 0xc0) as u16, 8);
+    }
+    let c9 = rev(v & 0x1ff, 9);
+    (144 + (c9 - 0x190) as u16, 9)
+}
+
+fn setup_fixed(state: &mut State<'_>) {
+    state.len_table = Table { codes: Codes::Fixed, bits: 9 };
+    state.dist_table = Table { codes: Codes::Fixed, bits: 5 };
+}
+
+/// One literal/length symbol from `Len` with at most 9 bits available and no further input.
+#[kani::proof]
+#[kani::unwind(8)]
+#[kani::stub(crate::inflate::inftrees::inflate_table, stub_table_unreachable)]
+#[kani::stub(core::fmt::write, stub_fmt_write)]
+#[kani::stub(core::panicking::panic_nounwind, stub_pn)]
+#[kani::stub(core::panicking::panic_nounwind_fmt, stub_pnf)]
+#[kani::stub(crate::inflate::inflate_fast_help, stub_fast_unreachable)]
+#[kani::stub(crate::inflate::writer::Writer::copy_match, stub_copy_match_unreachable)]
+#[kani::stub(crate::inflate::writer::Writer::extend_from_window, stub_efw_unreachable)]
+fn ki5d_len_step() {
+    let init: [u8; 4] = kani::any();
+    let mut out = init;
+    let pre: usize = kani::any();
+    let cap: usize = kani::any();
+    kani::assume(pre <= cap && cap <= 3);
+    let mut win = [0u8; 8 + 64];
+    let mut state = typed_state(&mut win, 0, Mode::Len);
+    setup_fixed(&mut state);
+    let nb: u8 = kani::any();
+    kani::assume(nb <= 9);
+    let pv: u64 = kani::any();
+    state.bit_reader.prime(nb, pv);
+    let pv = pv & ((1u64 << nb) - 1);
+    state.writer = unsafe { Writer::new_uninit_raw(out.as_mut_ptr(), pre, cap) };
+    let rc = match state.len_and_friends() {
+        ControlFlow::Break(rc) => rc,
+        ControlFlow::Continue(()) => ReturnCode::Ok,
+    };
+    let mode = state.mode;
+    let filled = state.writer.len();
+    let bits_left = state.bit_reader.bits_in_buffer();
+    let (length, extra, back) = (state.length, state.extra, state.back);
+    core::mem::forget(state);
+    let (sym, clen) = ref_fixed_lit(pv);
+    if clen > nb {
+        // not enough bits for this code: asks for more, nothing consumed
+        assert!(rc == ReturnCode::Ok && matches!(mode, Mode::Len) && bits_left == nb && filled == pre);
+    } else if sym < 256 {
+        assert!(rc == ReturnCode::Ok && bits_left == nb - clen);
+        if pre == cap {
+            assert!(matches!(mode, Mode::Lit) && filled == pre && length == sym as usize);
+        } else {
+            assert!(matches!(mode, Mode::Len) && filled == pre + 1 && out[pre] == sym as u8);
+        }
+    } else if sym == 256 {
+        // end of block: back at the block layer (needs 3 more bits), marker for inflateMark
+        assert!(rc == ReturnCode::Ok && matches!(mode, Mode::TypeDo | Mode::Type) && back == usize::MAX && filled == pre);
+    } else if sym >= 286 {
+        assert!(rc == ReturnCode::DataError && matches!(mode, Mode::Bad) && filled == pre);
+    } else {
+        let li = (sym - 257) as usize;
+        assert!(rc == ReturnCode::Ok && filled == pre);
+        let ex = LEXT[li] as u8;
+        if ex != 0 && nb - clen < ex {
+            assert!(matches!(mode, Mode::LenExt) && length == LBASE[li] as usize && extra == ex as usize);
+        } else {
+            // extra bits consumed, waiting for the distance code (fewer than 5 bits can remain)
+            let exv = ((pv >> clen) & ((1u64 << ex) - 1)) as usize;
+            assert!(length == LBASE[li] as usize + exv);
+            assert!(matches!(mode, Mode::Dist) && bits_left == nb - clen - ex);
+        }
+    }
+    let mut i = 0;
+    while i < 4 {
+        if i != pre || filled == pre {
+            assert!(out[i] == init[i]);
+        }
+        i += 1;
+    }
+    kani::cover!(sym == 285 && clen <= nb);
+    kani::cover!(sym == 287 && clen <= nb);
+    kani::cover!(sym == 255 && clen <= nb && pre < cap);
+    kani::cover!(sym == 256 && clen <= nb);
+    kani::cover!(clen > nb && nb == 8);
+}
+
+/// Distance decoding from `LenExt`/`Dist`/`DistExt` with the output already full, so the step ends in `Match`
+/// before any copy: offset = RFC base + extra; codes 30/31 rejected; bookkeeping of `length`, `was`.
+fn dist_step<const VIA_FRIENDS: bool>() {
+    let mut out = [0u8; 4];
+    let mut win = [0u8; 8 + 64];
+    let start: u8 = kani::any();
+    kani::assume(start < 3);
+    let mode0 = match start {
+        0 => Mode::LenExt,
+        1 => Mode::Dist,
+        _ => Mode::DistExt,
+    };
+    let mut state = typed_state(&mut win, 0, mode0);
+    setup_fixed(&mut state);
+    let len0: usize = kani::any();
+    kani::assume(len0 >= 3 && len0 <= 258);
+    state.length = len0;
+    state.was = len0;
+    let lext: usize = kani::any();
+    kani::assume(lext <= 5);
+    let dext0: usize = kani::any();
+    kani::assume(dext0 <= 13);
+    let off0: usize = kani::any();
+    kani::assume(off0 >= 1 && off0 <= 24577);
+    match start {
+        0 => state.extra = lext,
+        1 => {}
+        _ => {
+            state.extra = dext0;
+            state.offset = off0;
+        }
+    }
+    state.back = 0;
+    let nb: u8 = kani::any();
+    kani::assume(nb <= 23);
+    let pv: u64 = kani::any();
+    state.bit_reader.prime(nb, pv);
+    let pv = pv & ((1u64 << nb) - 1);
+    // full writer: `Match` returns at once
+    state.writer = unsafe { Writer::new_uninit_raw(out.as_mut_ptr(), 2, 2) };
+    let rc = if VIA_FRIENDS {
+        match state.len_and_friends() {
+            ControlFlow::Break(rc) => rc,
+            ControlFlow::Continue(()) => ReturnCode::Ok,
+        }
+    } else {
+        state.dispatch()
+    };
+    let mode = state.mode;
+    let bits_left = state.bit_reader.bits_in_buffer() as usize;
+    let (length, offset, extra, was) = (state.length, state.offset, state.extra, state.was);
+    core::mem::forget(state);
+    assert!(out[0] == 0 && out[1] == 0 && out[2] == 0 && out[3] == 0);
+    // reference
+    let mut v = pv;
+    let mut n = nb as usize;
+    let mut exp_len = len0;
+    let mut stage = start;
+    if stage == 0 {
+        if n < lext {
+            assert!(rc == ReturnCode::Ok && matches!(mode, Mode::LenExt) && length == len0 && bits_left == nb as usize);
+            return;
+        }
+        exp_len += (v & ((1u64 << lext) - 1)) as usize;
+        v >>= lext;
+        n -= lext;
+        stage = 1;
+    }
+    let mut exp_off = off0;
+    let mut dext = dext0;
+    if stage == 1 {
+        if n < 5 {
+            assert!(rc == ReturnCode::Ok && matches!(mode, Mode::Dist) && length == exp_len && bits_left == n);
+            assert!(start != 0 || was == exp_len);
+            return;
+        }
+        let dsym = rev(v & 31, 5) as usize;
+        v >>= 5;
+        n -= 5;
+        if dsym >= 30 {
+            assert!(rc == ReturnCode::DataError && matches!(mode, Mode::Bad));
+            return;
+        }
+        exp_off = DBASE[dsym] as usize;
+        dext = DEXT[dsym] as usize;
+    }
+    if n < dext {
+        assert!(rc == ReturnCode::Ok && matches!(mode, Mode::DistExt) && offset == exp_off && extra == dext && bits_left == n);
+        return;
+    }
+    exp_off += (v & ((1u64 << dext) - 1)) as usize;
+    n -= dext;
+    assert!(rc == ReturnCode::Ok && matches!(mode, Mode::Match));
+    assert!(offset == exp_off && length == exp_len && bits_left == n);
+    kani::cover!(start == 0 && exp_off == 32768 && exp_len == 258);
+    kani::cover!(start == 1 && exp_off == 1);
+}
+
+#[kani::proof]
+#[kani::unwind(6)]
+#[kani::stub(crate::inflate::inftrees::inflate_table, stub_table_unreachable)]
+#[kani::stub(core::fmt::write, stub_fmt_write)]
+#[kani::stub(core::panicking::panic_nounwind, stub_pn)]
+#[kani::stub(core::panicking::panic_nounwind_fmt, stub_pnf)]
+#[kani::stub(crate::inflate::inflate_fast_help, stub_fast_unreachable)]
+#[kani::stub(crate::inflate::writer::Writer::copy_match, stub_copy_match_unreachable)]
+#[kani::stub(crate::inflate::writer::Writer::extend_from_window, stub_efw_unreachable)]
+fn ki5d_dist_step_dispatch() {
+    dist_step::<false>();
+}
+
+#[kani::proof]
+#[kani::unwind(6)]
+#[kani::stub(crate::inflate::inftrees::inflate_table, stub_table_unreachable)]
+#[kani::stub(core::fmt::write, stub_fmt_write)]
+#[kani::stub(core::panicking::panic_nounwind, stub_pn)]
+#[kani::stub(core::panicking::panic_nounwind_fmt, stub_pnf)]
+#[kani::stub(crate::inflate::inflate_fast_help, stub_fast_unreachable)]
+#[kani::stub(crate::inflate::writer::Writer::copy_match, stub_copy_match_unreachable)]
+#[kani::stub(crate::inflate::writer::Writer::extend_from_window, stub_efw_unreachable)]
+fn ki5d_dist_step_friends() {
+    dist_step::<true>();
+}
+
+/// One `Match` step (no bits, no input): rejected exactly when the distance reaches before everything available
+/// (output of this call + window); otherwise LZ77 semantics, canaries, partial copies resume.
+fn match_step<const VIA_FRIENDS: bool, const CAP: usize, const MAXLEN: usize>() {
+    const W: usize = 8;
+    let init: [u8; 16] = kani::any();
+    let mut out = init;
+    let pre: usize = kani::any();
+    let n_out: usize = kani::any();
+    kani::assume(pre <= 4 && n_out >= pre && n_out <= CAP && CAP + 4 <= 16);
+    let wcontent: [u8; W] = kani::any();
+    let mut win = [0u8; W + 64];
+    let mut k = 0;
+    while k < W {
+        win[k] = wcontent[k];
+        k += 1;
+    }
+    let mut state = typed_state(&mut win, 0, Mode::Match);
+    setup_fixed(&mut state);
+    // window pre-state: either not yet wrapped (next == have < W) or full with any write head
+    let have: usize = kani::any();
+    kani::assume(have <= W);
+    // `next` is private to window.rs: reach a (have, next) pair through the real extend()
+    let fill: usize = kani::any();
+    kani::assume(fill <= 2 * W);
+    {
+        let mut ck = 1u32;
+        let mut fold = Crc32Fold::new();
+        let mut done = 0;
+        // feed `fill` bytes one chunk of <= W-1 at a time so that the write head moves without the len >= wsize shortcut
+        while done < fill {
+            let n = if fill - done > W - 1 { W - 1 } else { fill - done };
+            let chunk = [0u8; W];
+            let _ = chunk;
+            // contents are re-established below; only (have, next) matter here
+            state.window.extend(&wcontent[..n], 0, false, &mut ck, &mut fold);
+            done += n;
+        }
+    }
+    let have = state.window.have();
+    let next = state.window.next();
+    let mut k = 0;
+    while k < W {
+        win_set(&mut state, k, wcontent[k]);
+        k += 1;
+    }
+    let len: usize = kani::any();
+    kani::assume(len >= 1 && len <= MAXLEN);
+    let off: usize = kani::any();
+    kani::assume(off >= 1 && off <= 32768);
+    state.length = len;
+    state.was = len;
+    state.offset = off;
+    state.writer = unsafe { Writer::new_uninit_raw(out.as_mut_ptr(), pre, n_out) };
+    let rc = if VIA_FRIENDS {
+        match state.len_and_friends() {
+            ControlFlow::Break(rc) => rc,
+            ControlFlow::Continue(()) => ReturnCode::Ok,
+        }
+    } else {
+        state.dispatch()
+    };
+    let filled = state.writer.len();
+    let bad = matches!(state.mode, Mode::Bad);
+    let rest = state.length;
+    let mode = state.mode;
+    core::mem::forget(state);
+    assert!(matches!(rc, ReturnCode::Ok | ReturnCode::DataError));
+    let full_at_entry = pre == n_out;
+    if full_at_entry {
+        assert!(rc == ReturnCode::Ok && filled == pre && rest == len && matches!(mode, Mode::Match));
+    } else {
+        assert!(bad == (off > pre + have));
+        if bad {
+            assert!(rc == ReturnCode::DataError && filled == pre);
+        } else {
+            assert!(filled - pre + rest == len);
+            assert!(filled == n_out || rest == 0);
+            assert!(matches!(mode, Mode::Match) == (rest != 0));
+        }
+    }
+    let mut i = 0;
+    while i < 16 {
+        if i < pre || i >= filled {
+            assert!(out[i] == init[i]);
+        } else if off <= i {
+            assert!(out[i] == out[i - off]);
+        } else {
+            // d bytes before the start of this call's output = ring position (next - d) mod W
+            let d = off - i;
+            let pos = (next + W - d) % W;
+            assert!(out[i] == wcontent[pos]);
+        }
+        i += 1;
+    }
+    kani::cover!(!bad && !full_at_entry && off > pre && rest == 0 && next != 0, "copy from the window, wrapped ring");
+    kani::cover!(!bad && off > pre && off < filled, "copy spans window and output");
+    kani::cover!(bad);
+    kani::cover!(!bad && rest > 0 && filled > pre, "partial copy, resumes later");
+}
+
+fn win_set(state: &mut State<'_>, k: usize, v: u8) {
+    unsafe { *state.window.as_mut_ptr().add(k) = v };
+}
+
+#[kani::proof]
+#[kani::unwind(20)]
+#[kani::stub(crate::inflate::inftrees::inflate_table, stub_table_unreachable)]
+#[kani::stub(core::fmt::write, stub_fmt_write)]
+#[kani::stub(core::panicking::panic_nounwind, stub_pn)]
+#[kani::stub(core::panicking::panic_nounwind_fmt, stub_pnf)]
+#[kani::stub(crate::inflate::inflate_fast_help, stub_fast_unreachable)]
+#[kani::stub(crate::inflate::State::len_and_friends, stub_laf_suspends)]
+fn ki5d_match_step_dispatch() {
+    match_step::<false, 8, 8>();
+}
+
+#[kani::proof]
+#[kani::unwind(20)]
+#[kani::stub(crate::inflate::inftrees::inflate_table, stub_table_unreachable)]
+#[kani::stub(core::fmt::write, stub_fmt_write)]
+#[kani::stub(core::panicking::panic_nounwind, stub_pn)]
+#[kani::stub(core::panicking::panic_nounwind_fmt, stub_pnf)]
+#[kani::stub(crate::inflate::inflate_fast_help, stub_fast_unreachable)]
+fn ki5d_match_step_friends() {
+    match_step::<true, 8, 8>();
+}
+
+#[kani::proof]
+#[kani::unwind(20)]
+#[kani::stub(crate::inflate::inftrees::inflate_table, stub_table_unreachable)]
+#[kani::stub(core::fmt::write, stub_fmt_write)]
+#[kani::stub(core::panicking::panic_nounwind, stub_pn)]
+#[kani::stub(core::panicking::panic_nounwind_fmt, stub_pnf)]
+#[kani::stub(crate::inflate::inflate_fast_help, stub_fast_unreachable)]
+#[kani::stub(crate::inflate::State::len_and_friends, stub_laf_suspends)]
+fn ki5d_match_step_dispatch_wide() {
+    match_step::<false, 12, 258>();
+}
+
+/// LENFIX / DISTFIX (the fixed-table constants used by every fixed block) equal RFC 1951 3.2.6:
+/// for every 9-bit / 5-bit index the entry decodes the RFC symbol with the RFC length.
+#[kani::proof]
+#[kani::unwind(4)]
+fn ki5d_fixed_tables_are_rfc() {
+    let idx: usize = kani::any();
+    kani::assume(idx < 512);
+    let e = self::inffixed_tbl::LENFIX[idx];
+    let (sym, clen) = ref_fixed_lit(idx as u64);
+    assert!(e.bits == clen);
+    if sym < 256 {
+        assert!(e.op == 0 && e.val == sym);
+    } else if sym == 256 {
+        assert!(e.op & 32 != 0 && e.op & 16 == 0);
+    } else if sym >= 286 {
+        assert!(e.op & 64 != 0 && e.op & 48 == 0);
+    } else {
+        let li = (sym - 257) as usize;
+        assert!(e.op & 16 != 0 && e.op & 0xe0 == 0 && (e.op & 15) == LEXT[li] && e.val == LBASE[li]);
+    }
+    let d: usize = kani::any();
+    kani::assume(d < 32);
+    let e = self::inffixed_tbl::DISTFIX[d];
+    let dsym = rev(d as u64, 5) as usize;
+    assert!(e.bits == 5);
+    if dsym >= 30 {
+        assert!(e.op & 64 != 0);
+    } else {
+        assert!(e.op & 16 != 0 && e.op & 0xe0 == 0 && (e.op & 15) == DEXT[dsym] && e.val == DBASE[dsym]);
+    }
+    kani::cover!(sym == 285);
+}
